@@ -31,6 +31,17 @@ CHECKS = {
               "(capped at 400k per worker, so counted conservatively)"),
         assumptions=STREAM_ASSUME,
     ),
+    "C03": dict(
+        bins=["c03"], replay_bin="c03", campaigns=lambda tier, seed: [dict(name="c03", bin="c03", shards=16, timeout=3000)], level="exploration",
+        rule=("rapidcheck well-formed exchanges (1..4 pipelined request/response pairs; methods, origin/absolute targets, 0..k headers with optional whitespace, obs-fold "
+              "and repetition, cookies, Basic credentials, Expect/100-continue, CL / chunked (sizes, hex case, leading zeros, extensions, trailers) / close-delimited / "
+              "bodyless framing, bodies with CR LF NUL and HTTP look-alikes, CRLF or bare-LF terminators) x 10 personalities; reference = one call per direction; compared "
+              "with EVERY single cut of the request stream and of the response stream, one byte per call, and 8 random multi-cuts: canonical transaction dumps "
+              "(multi-packet-head masked), delivered body bytes, per-(transaction,direction) callback projection. Non-trivial = cut strictly inside a message head, inside a "
+              "CR LF pair or within 2 bytes of a head/body or message/message joint; distinct by (stream bytes, cut)"),
+        assumptions=["request stream delivered before the response stream (interleavings are C04's dimension); hand-over protocol followed",
+                     "generator domain restrictions: see harness/httpgen.hpp header comment"],
+    ),
     "C05": dict(
         bins=["fuzz_stream", "sreplay"], replay_bin="sreplay", replay_args=["--monitor", "C05"], campaigns=_fuzz("C05", ""), level="exploration",
         prepare="seeds",
